@@ -20,6 +20,7 @@ import (
 	"sync"
 	"time"
 
+	"github.com/coredhcp/coredhcp/config"
 	"github.com/coredhcp/coredhcp/handler"
 	"github.com/coredhcp/coredhcp/plugins"
 	"github.com/coredhcp/coredhcp/plugins/autoconfigure"
@@ -63,8 +64,9 @@ var Plugins = map[string]*plugins.Plugin{
 // Vec is one configuration: plugin, protocol, argument vector.
 type Vec struct {
 	Plugin string   `json:"plugin"`
-	Proto  int      `json:"proto"`
+	Proto  int      `json:"proto"` // 4, 6, or 46 = configured under server6 AND server4 (dual stack)
 	Args   []string `json:"args"`
+	Args4  []string `json:"args_server4,omitempty"` // Proto 46: arguments under server4 (Args = server6)
 }
 
 // Case identifies one failing request under one configuration.
@@ -345,7 +347,9 @@ func worker(id string, args []string) int {
 	return reg.WorkerExit(r)
 }
 
-func argClass(v Vec) string { return fmt.Sprintf("%s/v%d/arity=%d", v.Plugin, v.Proto, len(v.Args)) }
+func argClass(v Vec) string {
+	return fmt.Sprintf("%s/v%d/arity=%d", v.Plugin, v.Proto, len(v.Args)+len(v.Args4))
+}
 
 func runVec(r *ev.Run, id string, v Vec) {
 	p := Plugins[v.Plugin]
@@ -354,6 +358,24 @@ func runVec(r *ev.Run, id string, v Vec) {
 			r.Violate(id+"/"+v.Plugin+"/setup-panic", fmt.Sprintf("Setup%d(%q) panicked: %v", v.Proto, v.Args, e), Case{Vec: v})
 		}
 	}()
+	if v.Proto == 46 {
+		// dual stack, through the real loader (DHCPv6 section first, then DHCPv4)
+		registerBuiltins()
+		conf := &config.Config{
+			Server6: &config.ServerConfig{Plugins: []config.PluginConfig{{Name: v.Plugin, Args: v.Args}}},
+			Server4: &config.ServerConfig{Plugins: []config.PluginConfig{{Name: v.Plugin, Args: v.Args4}}},
+		}
+		hs4, hs6, err := plugins.LoadPlugins(conf)
+		if err != nil || len(hs4) != 1 || len(hs6) != 1 {
+			r.Eval(argClass(v) + "/rejected")
+			return
+		}
+		r.Eval(argClass(v) + "/accepted")
+		r.Sample(argClass(v)+"/accepted", v)
+		run6(r, id, Vec{Plugin: v.Plugin, Proto: 6, Args: v.Args}, hs6[0])
+		run4(r, id, Vec{Plugin: v.Plugin, Proto: 4, Args: v.Args4}, hs4[0])
+		return
+	}
 	if v.Proto == 4 {
 		if p.Setup4 == nil {
 			return
@@ -900,7 +922,9 @@ func replay(r *ev.Run, id string, raw json.RawMessage) {
 // validVectors: accepted argument vectors for C17.
 func validVectors(thorough bool) []Vec {
 	var out []Vec
-	add := func(pl string, proto int, args ...string) { out = append(out, Vec{pl, proto, args}) }
+	add := func(pl string, proto int, args ...string) {
+		out = append(out, Vec{Plugin: pl, Proto: proto, Args: args})
+	}
 	for _, a := range [][]string{{"8.8.8.8"}, {"8.8.8.8", "1.1.1.1"}, {"10.0.0.1", "10.0.0.2", "255.255.255.255"}} {
 		add("dns", 4, a...)
 		add("router", 4, a...)
@@ -935,6 +959,14 @@ func validVectors(thorough bool) []Vec {
 	}
 	add("sleep", 4, "0s")
 	add("sleep", 6, "1ms")
+	// dual stack: the same plugin under server6 and server4 with DIFFERENT values; each
+	// family must emit its own configuration
+	out = append(out,
+		Vec{Plugin: "dns", Proto: 46, Args: []string{"2001:db8::53", "2001:db8::54"}, Args4: []string{"192.0.2.53"}},
+		Vec{Plugin: "searchdomains", Proto: 46, Args: []string{"v6.example.org", "lab6.example.org"}, Args4: []string{"v4.example.com"}},
+		Vec{Plugin: "nbp", Proto: 46, Args: []string{"http://[2001:db8::1]/six.efi?params=six"}, Args4: []string{"tftp://192.0.2.9/four.0"}},
+		Vec{Plugin: "sleep", Proto: 46, Args: []string{"0s"}, Args4: []string{"1ms"}},
+	)
 	return out
 }
 
@@ -962,7 +994,7 @@ func c19Vectors(scratch string, thorough bool) []Vec {
 		"searchdomains": {"example.com", long63, long64, long200, long300, "", ".", "a..b", "exa mple", "\xff\xfe.com"},
 		"staticroute": {"10.0.0.0/8,192.0.2.1", "0.0.0.0/0,10.0.0.1", "2001:db8::/32,2001:db8::1", "10.0.0.0/8,2001:db8::1", "2001:db8::/32,10.0.0.1",
 			"::ffff:10.0.0.0/104,10.0.0.1", "10.0.0.0/8,::ffff:10.0.0.1", "10.0.0.0/33,10.0.0.1", "10.0.0.0/8", "10.0.0.0/8,10.0.0.1,extra", "10.0.0.5/8,10.0.0.1", ",", ""},
-		"nbp": {"tftp://10.0.0.1/boot", "http://h/f?params=a%3Db", "https://h/" + long300, "ftp://h", "file:///x", "//nohost", "tftp://", "%zz", "", "http://h/f?params=", "tftp://" + long300 + "/x"},
+		"nbp":       {"tftp://10.0.0.1/boot", "http://h/f?params=a%3Db", "https://h/" + long300, "ftp://h", "file:///x", "//nohost", "tftp://", "%zz", "", "http://h/f?params=", "tftp://" + long300 + "/x"},
 		"sleep":     {"0s", "1ms", "-1s", "abc", ""},
 		"server_id": {"10.0.0.1", "2001:db8::1", "::ffff:10.0.0.1", "LL", "llt", "en", "uuid", "00:11:22:33:44:55", "00:11:22:33:44:55:66:77", "0011.2233.4455", "bogus", ""},
 		"file":      {good4, good6, bad, filepath.Join(scratch, "missing.txt"), scratch, "", "autorefresh", "foo"},
@@ -993,7 +1025,7 @@ func c19Vectors(scratch string, thorough bool) []Vec {
 				if pl == "prefix" && len(cur) == 2 && !prefixOK(cur) {
 					continue
 				}
-				out = append(out, Vec{pl, proto, append([]string{}, cur...)})
+				out = append(out, Vec{Plugin: pl, Proto: proto, Args: append([]string{}, cur...)})
 			}
 			if len(cur) == ar {
 				return
@@ -1004,22 +1036,32 @@ func c19Vectors(scratch string, thorough bool) []Vec {
 		}
 		rec(nil)
 	}
+	// dual-stack configurations through the real loader
+	out = append(out,
+		Vec{Plugin: "file", Proto: 46, Args: []string{good6}, Args4: []string{good4}},
+		Vec{Plugin: "file", Proto: 46, Args: []string{good6, "autorefresh"}, Args4: []string{good4, "autorefresh"}},
+		Vec{Plugin: "dns", Proto: 46, Args: []string{"2001:db8::53"}, Args4: []string{"192.0.2.53"}},
+		Vec{Plugin: "searchdomains", Proto: 46, Args: []string{"v6.example.org"}, Args4: []string{"v4.example.com"}},
+		Vec{Plugin: "nbp", Proto: 46, Args: []string{"http://[2001:db8::1]/six.efi?params=six"}, Args4: []string{"tftp://192.0.2.9/four.0"}},
+		Vec{Plugin: "server_id", Proto: 46, Args: []string{"LL", "00:de:ad:be:ef:00"}, Args4: []string{"192.0.2.1"}},
+		Vec{Plugin: "sleep", Proto: 46, Args: []string{"0s"}, Args4: []string{"0s"}},
+	)
 	// 70 DNS servers / routers: option longer than 255 bytes
 	many := make([]string, 70)
 	for i := range many {
 		many[i] = fmt.Sprintf("10.1.%d.%d", i/200, i%200+1)
 	}
-	out = append(out, Vec{"dns", 4, many}, Vec{"router", 4, many})
+	out = append(out, Vec{Plugin: "dns", Proto: 4, Args: many}, Vec{Plugin: "router", Proto: 4, Args: many})
 	many6 := make([]string, 70)
 	for i := range many6 {
 		many6[i] = fmt.Sprintf("2001:db8::%x", i+1)
 	}
-	out = append(out, Vec{"dns", 6, many6})
+	out = append(out, Vec{Plugin: "dns", Proto: 6, Args: many6})
 	manyR := make([]string, 40)
 	for i := range manyR {
 		manyR[i] = fmt.Sprintf("10.%d.0.0/16,192.0.2.%d", i, i+1)
 	}
-	out = append(out, Vec{"staticroute", 4, manyR})
+	out = append(out, Vec{Plugin: "staticroute", Proto: 4, Args: manyR})
 	// range: (db file, start, end, lease) incl. wrong arity and bad values
 	db := func(n string) string { return filepath.Join(scratch, n) }
 	i := 0
@@ -1027,13 +1069,13 @@ func c19Vectors(scratch string, thorough bool) []Vec {
 		for _, en := range []string{"10.0.0.20", "10.0.0.10", "2001:db8::9", "255.255.255.255", "bogus", "::ffff:10.0.0.20"} {
 			for _, lt := range []string{"60s", "0s", "-1s", "abc", "2562047h"} {
 				i++
-				out = append(out, Vec{"range", 4, []string{db(fmt.Sprintf("r%d.sqlite", i)), st, en, lt}})
+				out = append(out, Vec{Plugin: "range", Proto: 4, Args: []string{db(fmt.Sprintf("r%d.sqlite", i)), st, en, lt}})
 			}
 		}
 	}
-	out = append(out, Vec{"range", 4, nil}, Vec{"range", 4, []string{db("x.sqlite")}}, Vec{"range", 4, []string{"", "10.0.0.1", "10.0.0.9", "60s"}},
-		Vec{"range", 4, []string{scratch, "10.0.0.1", "10.0.0.9", "60s"}}, Vec{"range", 4, []string{db("nodir/x.sqlite"), "10.0.0.1", "10.0.0.9", "60s"}},
-		Vec{"range", 4, []string{bad, "10.0.0.1", "10.0.0.9", "60s"}}, Vec{"range", 4, []string{db("five.sqlite"), "10.0.0.1", "10.0.0.9", "60s", "extra"}})
+	out = append(out, Vec{Plugin: "range", Proto: 4, Args: nil}, Vec{Plugin: "range", Proto: 4, Args: []string{db("x.sqlite")}}, Vec{Plugin: "range", Proto: 4, Args: []string{"", "10.0.0.1", "10.0.0.9", "60s"}},
+		Vec{Plugin: "range", Proto: 4, Args: []string{scratch, "10.0.0.1", "10.0.0.9", "60s"}}, Vec{Plugin: "range", Proto: 4, Args: []string{db("nodir/x.sqlite"), "10.0.0.1", "10.0.0.9", "60s"}},
+		Vec{Plugin: "range", Proto: 4, Args: []string{bad, "10.0.0.1", "10.0.0.9", "60s"}}, Vec{Plugin: "range", Proto: 4, Args: []string{db("five.sqlite"), "10.0.0.1", "10.0.0.9", "60s", "extra"}})
 	return out
 }
 
@@ -1061,12 +1103,24 @@ func MonitorBuiltins(r *ev.Run) {
 	os.WriteFile(good6, []byte("02:00:00:17:00:01 2001:db8::77\n"), 0o644)
 	vecs := validVectors(false)
 	vecs = append(vecs,
-		Vec{"server_id", 4, []string{"10.0.0.1"}}, Vec{"server_id", 6, []string{"LL", "00:de:ad:be:ef:00"}},
-		Vec{"file", 4, []string{good4}}, Vec{"file", 6, []string{good6}},
-		Vec{"range", 4, []string{filepath.Join(scratch, "mon.sqlite"), "10.0.0.10", "10.0.0.11", "60s"}},
-		Vec{"prefix", 6, []string{"2001:db8::/63", "64"}})
+		Vec{Plugin: "server_id", Proto: 4, Args: []string{"10.0.0.1"}}, Vec{Plugin: "server_id", Proto: 6, Args: []string{"LL", "00:de:ad:be:ef:00"}},
+		Vec{Plugin: "file", Proto: 4, Args: []string{good4}}, Vec{Plugin: "file", Proto: 6, Args: []string{good6}},
+		Vec{Plugin: "range", Proto: 4, Args: []string{filepath.Join(scratch, "mon.sqlite"), "10.0.0.10", "10.0.0.11", "60s"}},
+		Vec{Plugin: "prefix", Proto: 6, Args: []string{"2001:db8::/63", "64"}})
 	spawnAll(r, "C13", vecs)
 }
 
 // Worker is the worker entry point for another check id reusing this machinery.
 func Worker(id string, args []string) int { return worker(id, args) }
+
+var regOnce sync.Once
+
+func registerBuiltins() {
+	regOnce.Do(func() {
+		for _, p := range Plugins {
+			if _, ok := plugins.RegisteredPlugins[p.Name]; !ok {
+				plugins.RegisterPlugin(p)
+			}
+		}
+	})
+}
